@@ -51,6 +51,34 @@ struct iter_policy
         if (o.block_end(N - 1) > static_cast<char*>(o.block_.memory) + o.block_.size)
             T().fail("M-iter", "regions-exceed-block", "last region ends past the block");
     }
+    static int nbad()
+    {
+        return 0;
+    }
+    static std::string bad_kind(int)
+    {
+        return "";
+    }
+    template <class W>
+    static std::string bad_name(W&, int, int)
+    {
+        return "";
+    }
+    template <class W>
+    static bool bad_enabled(W&, int, int)
+    {
+        return false;
+    }
+    template <class W>
+    static void bad_call(W&, int, int)
+    {
+    }
+    template <class W>
+    static u64 digest(W&, int s)
+    {
+        (void)s;
+        return 0;
+    }
     static bool fills_new()
     {
         return true;
